@@ -2,7 +2,7 @@
 """development helper: regenerate the seeded-mutation table of DESIGN.md (between the SEEDS markers) from seeded/*/meta.json."""
 import glob, json, os, re
 rows = []
-for d in sorted(glob.glob("/verif/seeded/*")):
+for d in sorted(x for x in glob.glob("/verif/seeded/*") if os.path.isfile(os.path.join(x, "meta.json"))):
     m = json.load(open(os.path.join(d, "meta.json")))
     files = sorted(set(re.findall(r"^\+\+\+ b/(\S+)", open(os.path.join(d, "patch.diff")).read(), re.M)))
     br = (m.get("breaks") or "").replace("|", "/").replace("\n", " ")
